@@ -2,7 +2,7 @@
 # usage: tools/run_all.sh <quick|thorough> [seed] [ids...]   -> one summary line per check
 tier=${1:-quick}; seed=${2:-1}; shift 2 2>/dev/null
 ids=${@:-C01 C02 C03 C04 C05 C06 C07 C08 C09 C10 C11 C12 C13 C14 C15 C16 C17 C18}
-cd /verif
+cd "$(dirname "$0")/.."
 mkdir -p target/logs
 for c in $ids; do
   t0=$(date +%s)
